@@ -16,7 +16,9 @@ internal/core/drand_beacon_control.go:StartFollowChain.                         
 Variant switches (DESIGN §2.5): `roundCheck` = tryNode refuses a streamed beacon whose round is not `last.Round+1`
 (as-is code: no such check), `rangeCheck` = on the repair path tryNode refuses rounds outside `[from, upTo]` (as-is: no
 such check),
-`followRetry` = StartFollowChain with a made `errChan` (as-is code: `var errChan chan error`, a nil channel: false).
+`followRetry` = StartFollowChain with a made `errChan` (as-is code: `var errChan chan error`, a nil channel: false),
+`labelCheck` (argument of `checkLoop`) = CheckPastBeacons compares the round of the beacon it read with the round it asked
+for (as-is: no such comparison).
 -/
 import Drand.Chain.Stack
 
@@ -151,16 +153,38 @@ def reSync (cfg : Cfg) (self : String) (from_ to : Nat) (dead : Bool) (n : Node)
       (r2.1, r2.2.1.toRe, r2.2.2)
     else (r.1, r.2.1.toRe, r.2.2)
 
-/-- `CheckPastBeacons` over the read interface of the store -/
-def checkLoop (verify : Beacon → Bool) (get : Nat → Option Beacon) : Nat → Nat → List Nat
+/-- what `store.Get(ctx, i)` answers -/
+inductive GetRes where
+  | ok (b : Beacon)
+  /-- `ErrNoBeaconStored`: no record under that round (trimmed, previous-required: or none under the round before) -/
+  | notStored
+  /-- any other error: a record is there but cannot be decoded (a torn JSON value of the untrimmed bolt format, a row that
+  does not scan), the store itself is failing -/
+  | otherErr
+  deriving DecidableEq, Repr
+
+/-- the loop of `CheckPastBeacons`, statement by statement (`i` = the loop variable, `k` = rounds still to visit):
+```
+b, err := s.store.Get(ctx, i)
+if err != nil { faultyBeacons = append(faultyBeacons, i); …; continue }        -- EVERY error (Gen.checkPastSteps)
+if err = s.scheme.VerifyBeacon(b, s.info.PublicKey); err != nil { faultyBeacons = append(faultyBeacons, b.Round) }
+```
+Variant switch `labelCheck` (DESIGN §2.5): the corrected loop first compares the round of the beacon it read with the round
+it asked for and reports the round asked for (as-is: no such comparison, and a beacon that does not verify is reported
+under the round *it carries*). -/
+def checkLoop (labelCheck : Bool) (verify : Beacon → Bool) (get : Nat → GetRes) : Nat → Nat → List Nat
   | _, 0 => []
   | i, k + 1 =>
     (match get i with
-     | none => [i]
-     | some b => if verify b = false then [b.round] else []) ++ checkLoop verify get (i + 1) k
+     | .notStored => [i]
+     | .otherErr => [i]
+     | .ok b =>
+       if labelCheck && decide (b.round ≠ i) then [i]
+       else if verify b = false then [b.round] else []) ++ checkLoop labelCheck verify get (i + 1) k
 
-def checkPast (verify : Beacon → Bool) (get : Nat → Option Beacon) (lastRound upTo : Nat) : List Nat :=
-  checkLoop verify get 1 (if lastRound < upTo then lastRound else upTo)
+/-- `CheckPastBeacons(upTo)` once `store.Last` answered `lastRound` -/
+def checkPast (labelCheck : Bool) (verify : Beacon → Bool) (get : Nat → GetRes) (lastRound upTo : Nat) : List Nat :=
+  checkLoop labelCheck verify get 1 (if lastRound < upTo then lastRound else upTo)
 
 inductive CorrectRes where
   | ok | errors (k : Nat) | cancelled
